@@ -37,22 +37,15 @@ type Explorer struct {
 	Stats  Stats
 }
 
-// altCost is the number of deviations charged for taking alternative j at point p.
+// altCost is the number of deviations charged for taking alternative j at point p: every departure from the default
+// schedule costs one, whether it preempts a runnable goroutine, fires the clock early, picks another ready select
+// case, or picks another goroutine when the running one blocked (charging these "free" switches too keeps the search
+// polynomial in the number of blocking points).
 func altCost(p *vsched.Point, j int) int {
 	if j == 0 {
 		return 0
 	}
-	a := p.Alts[j]
-	if a.Gid == -1 {
-		return 1 // firing the clock while something else can run
-	}
-	if p.RunningEnabled {
-		return 1 // preemption
-	}
-	if a.Gid == p.Alts[0].Gid {
-		return 1 // another ready select case of the same goroutine
-	}
-	return 0 // free switch: the running goroutine blocked or exited
+	return 1
 }
 
 type node struct {
